@@ -48,22 +48,18 @@ def make_module_di(app: Any, module_path: str, root_entry: Any = None) -> Any:
 	return di
 
 
-def raw_walk(root: Any) -> list[tuple[str, Any, str | None]]:
-	"""The harness's own addressing of the raw tree: (full path, entry, parent path) in document (pre-)order.
-	Path element = tag, or tag[index] when the tag repeats among the siblings (index = position among all children)."""
-	out: list[tuple[str, Any, str | None]] = []
+def raw_walk(root: Any) -> list[tuple[Any, int]]:
+	"""The raw tree in document (pre-)order: (entry, index of its parent or -1). No path strings: how entries are *named* is the
+	implementation's business; the harness only knows the shape."""
+	out: list[tuple[Any, int]] = []
 
-	def rec(entry: Any, path: str, parent: str | None) -> None:
-		out.append((path, entry, parent))
+	def rec(entry: Any, parent: int) -> None:
+		me = len(out)
+		out.append((entry, parent))
 		if entry.has_child:
-			children = entry.children
-			counts: dict[str, int] = {}
-			for c in children:
-				counts[c.name] = counts.get(c.name, 0) + 1
-			for i, c in enumerate(children):
-				elem = c.name if counts[c.name] == 1 else f'{c.name}[{i}]'
-				rec(c, f'{path}.{elem}', path)
-	rec(root, root.name, None)
+			for c in entry.children:
+				rec(c, me)
+	rec(root, -1)
 	return out
 
 
@@ -193,6 +189,7 @@ def expected_from_raw(q: dict[str, Any], walk: list[tuple[str, Any, str | None]]
 	kind = q['q']
 	p = walk[q['p'] % len(walk)][0]
 	parent_of = {path: par for path, _, par in walk}
+	name_of = {path: e.name for path, e, _ in walk}
 	if kind == 'exists':
 		return [True, False]
 	if kind == 'id':
@@ -205,22 +202,27 @@ def expected_from_raw(q: dict[str, Any], walk: list[tuple[str, Any, str | None]]
 			return '!NodeNotFound'
 		return [path for path, _, pp in walk if pp == par]
 	if kind == 'values':
-		return [e.value for path, e, _ in walk if (path == p or path.startswith(p + '.')) and e.value]
+		def under(path: str | None) -> bool:
+			while path is not None:
+				if path == p:
+					return True
+				path = parent_of[path]
+			return False
+		return [e.value for path, e, _ in walk if e.value and under(path)]
 	if kind == 'source_map':
 		e = walk[index[p]][1]
 		return [list(e.source_map['begin']), list(e.source_map['end'])]
 	if kind == 'parent':
 		cur = parent_of[p]
 		while cur is not None:
-			tag = cur.rsplit('.', 1)[-1].split('[')[0]
-			if tag in accepted:
+			if name_of[cur] in accepted:
 				return cur
 			cur = parent_of[cur]
 		return '!NodeNotFound'
 	if kind == 'ancestor':
 		cur: str | None = p
 		while cur is not None:
-			if cur.rsplit('.', 1)[-1].split('[')[0] == q['tag']:
+			if name_of[cur] == q['tag']:
 				return cur
 			cur = parent_of[cur]
 		return '!NodeNotFound'
@@ -288,23 +290,29 @@ def tree_task(case: dict[str, Any]):
 		else:
 			module = '__synthetic__'
 			root = EntryOfDict(synthetic_tree(tree))
-		walk = raw_walk(root)
-		paths = [w[0] for w in walk]
-		index = {p: i for i, p in enumerate(paths)}
+		raw = raw_walk(root)
 		mapping = app.resolve(SymbolMapping)
 		accepted = {tag for tags in mapping.symbols.values() for tag in tags}
 		diffs: list[dict[str, Any]] = []
-		stats = {'entries': len(walk), 'queries': 0, 'first_decided_through_neighbour': 0, 'clears': 0, 'bigrams': []}
+		stats = {'entries': len(raw), 'queries': 0, 'first_decided_through_neighbour': 0, 'clears': 0, 'bigrams': []}
 
-		# -- bijection and agreement with the raw tree (invariants)
+		# -- bijection: one full path per entry, no path twice, document order (judged on shape and identity, not on how paths are spelled)
 		finder = ASTFinder()
 		fp = finder.full_pathfy(root)
-		if list(fp.keys()) != paths:
-			extra = [p for p in fp if p not in index][:3]
-			missing = [p for p in paths if p not in fp][:3]
-			diffs.append({'class': 'full-paths-differ-from-raw-tree', 'detail': {'n_raw': len(paths), 'n_full_pathfy': len(fp), 'only_in_full_pathfy': extra, 'only_in_raw': missing, 'order_differs': sorted(fp) == sorted(paths)}})
-		if len(set(paths)) != len(paths):
-			diffs.append({'class': 'raw-walk-path-collision', 'detail': {}})
+		paths = list(fp.keys())
+		bad = None
+		if len(fp) != len(raw):
+			bad = {'entries_in_tree': len(raw), 'full_paths': len(fp)}
+		else:
+			for i, (path, entry) in enumerate(fp.items()):
+				if entry.source is not raw[i][0].source or entry.name != raw[i][0].name:
+					bad = {'position': i, 'path': path, 'entry_at_path': entry.name, 'entry_in_document_order': raw[i][0].name}
+					break
+		if bad is not None:
+			diffs.append({'class': 'full-paths-are-not-a-bijection-in-document-order', 'detail': bad})
+			return {'diffs': diffs, 'stats': {**stats, 'bigrams': []}, 'classes': 0}
+		walk = [(paths[i], raw[i][0], paths[raw[i][1]] if raw[i][1] >= 0 else None) for i in range(len(raw))]
+		index = {p: i for i, p in enumerate(paths)}
 		step = max(1, len(walk) // case.get('pluck_budget', 400))
 		for path, entry, _ in walk[::step]:
 			got = answer(lambda: finder.pluck(root, path))
